@@ -2,7 +2,7 @@
    files: the model at binary64, its environment filled from tables observed
    on the repository's own functions, against ParseMCNPCell.parse(). *)
 From Coq Require Import List NArith ZArith Bool String Ascii PrimFloat.
-From T4V Require Import Base.Str Base.Scalar Base.Cases C15.Model.
+From T4V Require Import Base.Str Base.Scalar Base.Cases C15.Model C15.Canon.
 Import ListNotations.
 Open Scope string_scope.
 
@@ -114,3 +114,30 @@ Definition diag_deck (c : tables * table * out) : list (Z * Z * list bool) * boo
        list_eqb Z.eqb s1 s2)
   | _, _ => ([], false)
   end.
+
+(* case (d): the explicit card constructed by Canon.canon_card for every card of
+   the deck (at word level and as text) parses, in the model, to the cell of the
+   LIKE card *)
+Fixpoint canon_cells (e : env (T:=float)) (tbl : table) (rank : nat) (todo : table)
+  : list (res (option (cell (T:=float) * cell (T:=float) * cell (T:=float)))) :=
+  match todo with
+  | [] => []
+  | (key, c) :: r => canon_cell FS e tbl rank key c :: canon_cells e tbl (S rank) r
+  end.
+
+Definition canon_ok (x : res (option (cell (T:=float) * cell (T:=float) * cell (T:=float)))) : bool :=
+  match x with
+  | Ok None => true
+  | Ok (Some (a, b, c)) => cell_eqb a b && cell_eqb a c
+  | Err EKey | Err EFuel => true          (* the chain itself does not resolve *)
+  | Err _ => false
+  end.
+
+Definition check_canon (c : tables * table * out) : bool :=
+  let '(t, tbl, _) := c in forallb canon_ok (canon_cells (env_of t) tbl O tbl).
+
+(* informational: the construction is defined for every card of the deck *)
+Definition canon_defined (c : tables * table * out) : bool :=
+  let '(t, tbl, _) := c in
+  forallb (fun x => match x with Ok (Some _) => true | _ => false end)
+          (canon_cells (env_of t) tbl O tbl).
